@@ -1,7 +1,7 @@
 #!/bin/bash
 # Confirms a sub-agent's seeded change in its scratch worktree and installs it under /verif/seeded/<id>/.
-# usage: tools/confirm_mutant.sh C04 A
-p=$1; x=$2; wt=/tmp/mut/$p; out=/tmp/mut/out/$p/$x; id=$p-$x
+# usage: tools/confirm_mutant.sh C04 A [basedir=/tmp/mut] [letter-in-id=A]
+p=$1; x=$2; base=${3:-/tmp/mut}; y=${4:-$x}; wt=$base/$p; out=$base/out/$p/$x; id=$p-$y
 export GOFLAGS=-mod=mod GOPROXY=off GOSUMDB=off GOTOOLCHAIN=local
 [ -f $out/patch.diff ] || { echo "$id: no patch"; exit 1; }
 cd $wt && git checkout -q -- . && git clean -fdq
